@@ -69,7 +69,7 @@ func init() {
 				continue
 			}
 			if d := oracle.Equal(r, base, tol); d != "" {
-				if (hasFeat(feats, "agg:topk") || hasFeat(feats, "agg:bottomk")) && r.Err == nil && base.Err == nil && TopkAmbiguous(c, expr, st) {
+				if (hasFeat(feats, "agg:topk") || hasFeat(feats, "agg:bottomk")) && TopkAmbiguous(c, expr, st) {
 					feats = append(feats, "topk-tie-not-judged")
 					continue
 				}
